@@ -354,7 +354,7 @@ def g_ttv(draw, tier):
     else:
         c["d"] = R.d_dims(draw, n, allow_none=True)
     c["full"] = draw(st.booleans())
-    c["vecs"] = [R.d_vals(draw, s, c["vkind"]) for s in c["shape"]]
+    c["vecs"] = R.d_vecs(draw, c["shape"], c["vkind"])
     return c
 
 
@@ -452,11 +452,18 @@ def _(ctx, c):
     return {"self": X, "factor": factor, "dims": d}, lambda: X.scale(factor, d)
 
 
-def region_key(draw, shape, allow_neg=False, lists=True):
+def region_key(draw, shape, allow_neg=False, lists=True, degenerate=True):
     ents = []
     for s in shape:
-        t = draw(st.sampled_from(["int", "slice", "full", "full"] + (["list", "arr"] if lists else [])))
-        if t == "int":
+        t = draw(st.sampled_from(["int", "slice", "full", "full"] + (["list", "arr"] if lists else []) +
+                                 (["empty", "step"] if degenerate else [])))
+        if t == "empty":
+            # (round 3, class 10) an empty range in this mode: a read returns nothing, a write is a no-op
+            a = draw(st.integers(0, s))
+            ents.append(dict(t="slice", v=draw(st.sampled_from([[None, 0, None], [a, a, None], [0, 0, None], [s, None, None]]))))
+        elif t == "step":
+            ents.append(dict(t="slice", v=draw(st.sampled_from([[None, None, 2], [None, None, -1], [1, None, 2]]))))
+        elif t == "int":
             ents.append(dict(t="int", v=draw(st.integers(-s if allow_neg else 0, s - 1))))
         elif t == "full":
             ents.append(dict(t="slice", v=[None, None, None]))
@@ -565,8 +572,11 @@ def g_getitem(draw, tier):
     c = draw(sparse(tier, min_order=1))
     shape = c["shape"]
     total = ref.prod(shape)
-    kind = draw(st.sampled_from(["lin-int", "lin-slice", "lin-arr", "lin-list", "subs", "region", "region"]))
-    if kind == "region":
+    kind = draw(st.sampled_from(["lin-int", "lin-slice", "lin-arr", "lin-list", "subs", "region", "region", "empty"]))
+    if kind == "empty":
+        e = draw(st.sampled_from(["lin-arr", "subs"]))
+        c["key"] = dict(kind="subs", v=[], n=len(shape)) if e == "subs" else dict(kind=e, v=[], has_negative=False)
+    elif kind == "region":
         c["key"] = region_key(draw, shape, allow_neg=True)
     elif kind == "lin-int":
         c["key"] = dict(kind=kind, v=draw(st.integers(-total, total - 1)))
@@ -602,7 +612,11 @@ def g_setitem(draw, tier):
     kind = draw(st.sampled_from(["subs", "subs", "region-scalar", "region-sptensor", "region-sptensor"] +
                                 (["lin"] if n == 1 else [])))
     c["skind"] = kind
-    if kind == "subs":
+    if kind == "subs" and draw(st.integers(0, 7)) == 0:
+        c["key"] = dict(kind="subs", v=[], n=n)  # (round 3, class 10) no subscripts: a no-op
+        c["vform"] = "scalar"
+        c["value"] = draw(st.sampled_from([0.0, 3.0]))
+    elif kind == "subs":
         k = draw(st.integers(1, 4))
         grow = draw(st.integers(0, 4)) == 0
         rows = draw(st.lists(st.tuples(*[st.integers(0, s - 1 + (1 if grow else 0)) for s in shape]),
@@ -624,7 +638,7 @@ def g_setitem(draw, tier):
         if whole:
             key = dict(kind="region", v=[dict(t="slice", v=[None, None, None]) for _ in shape])
         else:
-            key = region_key(draw, shape, allow_neg=False, lists=False)
+            key = region_key(draw, shape, allow_neg=False, lists=False, degenerate=False)
         c["key"] = key
         vshape = []
         for e, s in zip(key["v"], shape):
@@ -662,7 +676,7 @@ def _(ctx, c):
     X = S(c)
     sp_labels(ctx, c)
     key, lab = CT.build_key(c["key"])
-    ctx.label("set-" + c["skind"], "value-" + c["vform"])
+    ctx.label("set-" + c["skind"], "value-" + c["vform"], "key-" + lab)
     if c["vform"] == "scalar":
         v = c["value"]
     elif c["vform"] == "column":
